@@ -304,7 +304,7 @@ pub fn run(p: &Params) -> Report {
     }
     // random decodable strings up to 4 KiB (nesting capped so that weighing them is cheap either way)
     let mut r = Rng::new(p.shard_seed() ^ 0xC11);
-    let nrand = p.share(p.n(4_000, 100_000));
+    let nrand = p.share(p.n(20_000, 500_000));
     for i in 0..nrand {
         let n_ops = 1 + r.usize(if i % 10 == 0 { 900 } else { 60 });
         let mut depth = 0;
